@@ -10,6 +10,9 @@ import (
 	"verifsim/kernel"
 	"verifsim/wire"
 
+	"github.com/google/martian/v3"
+	"github.com/google/martian/v3/fifo"
+	"github.com/google/martian/v3/martianhttp"
 	"github.com/google/martian/v3/parse"
 
 	_ "github.com/google/martian/v3/failure"
@@ -400,7 +403,13 @@ func runC13(k *kernel.K) {
 		return &Reply{Raw: rs.Encode(req.Method)}
 	}
 	traffic := NewClient(k, aw.l, "traffic", "10.1.0.2")
+	traffic2 := NewClient(k, aw.l, "traffic2", "10.1.0.4") // a second connection: exchanges of the two overlap
 	admin := NewClient(k, aw.l, "admin", "10.1.0.3")
+	// seam R8: goroutines can be parked right before a mutex acquisition in MultiError, the
+	// configuration holder and the groups, so that another exchange or a query runs in between
+	ly := k.LockYield()
+	martian.VerifYieldHook, martianhttp.VerifYieldHook, fifo.VerifYieldHook = ly, ly, ly
+	defer func() { martian.VerifYieldHook, martianhttp.VerifYieldHook, fifo.VerifYieldHook = nil, nil, nil }()
 	conf := admin.Add(apiReq(900, "POST", "/configure", tree.JSON()))
 	k.Note("config: %s", clipStr(tree.JSON(), 700))
 
@@ -459,18 +468,30 @@ func runC13(k *kernel.K) {
 		}
 		msgs[id] = m
 		resps[id] = rs
-		traffic.Add(r)
+		if w.Chance(1, 3) {
+			traffic2.Add(r)
+			k.Probe("exchange_on_second_connection")
+		} else {
+			traffic.Add(r)
+		}
 		k.Note("exchange #%d %s %s cond=%q hdr=%v -> %d cond=%q hdr=%v", id, m.method, r.Target(), m.reqCond, m.reqHdr, m.status, m.resCond, m.resHdr)
 	}
 	var ops []*c13Op
 	for i, m := 0, w.Range(1, 5); i < m; i++ {
 		kind := []string{"query", "reset"}[w.Pick([]int{3, 2})]
 		op := &c13Op{kind: kind, idx: i + 1}
+		var ar *ReqSpec
 		if kind == "query" {
-			op.item = admin.Add(apiReq(910+i, "GET", "/verify", ""))
+			ar = apiReq(910+i, "GET", "/verify", "")
 		} else {
-			op.item = admin.Add(apiReq(910+i, "POST", "/verify/reset", ""))
+			ar = apiReq(910+i, "POST", "/verify/reset", "")
 		}
+		if w.Chance(1, 3) {
+			// addressed to the API server's own address instead of the API host name
+			ar.Host = "10.0.0.9:8181"
+			k.Probe("api_request_to_server_address")
+		}
+		op.item = admin.Add(ar)
 		ops = append(ops, op)
 	}
 	ops = append(ops, &c13Op{kind: "query", idx: len(ops) + 1, item: admin.Add(apiReq(990, "GET", "/verify", ""))})
@@ -480,17 +501,19 @@ func runC13(k *kernel.K) {
 	}
 	k.Note("admin: configure, %s", strings.Join(opNames, ", "))
 	// traffic starts once the configuration has been accepted
-	traffic.Hold = true
+	traffic.Hold, traffic2.Hold = true, true
 	k.AddInvariant(func() {
 		if traffic.Hold && len(admin.P.Final()) >= 1 {
-			traffic.Hold = false
+			traffic.Hold, traffic2.Hold = false, false
 		}
 	})
 	k.StateFn = func() string {
-		return fmt.Sprintf("%s|%s|%s|%s", n.Fingerprint(), traffic.State(), admin.State(), origin.State())
+		return fmt.Sprintf("%s|%s|%s|%s|%s", n.Fingerprint(), traffic.State(), traffic2.State(), admin.State(), origin.State())
 	}
-	k.RunUntil(func() bool { return traffic.Done() && admin.Done() })
+	k.RunUntil(func() bool { return traffic.Done() && traffic2.Done() && admin.Done() && len(k.Parked()) == 0 })
 	k.Drain()
+	k.ReleaseAll()
+	k.Settle()
 	if k.Inconclusive != "" {
 		aw.cleanup()
 		return
@@ -515,7 +538,8 @@ func runC13(k *kernel.K) {
 		leaf  *vleaf
 		ex    int
 		phase string
-		step  int
+		step  int // the phase entered the user configuration
+		end   int // the phase left it (a goroutine can be parked in between, seam R8)
 	}
 	var fails []failure
 	for id, m := range msgs {
@@ -528,7 +552,11 @@ func runC13(k *kernel.K) {
 			tree.evaluated(phase, m, &ev)
 			for _, l := range ev {
 				if l.unmet(phase, m) {
-					fails = append(fails, failure{l, id, phase, step})
+					end, ok := aw.phaseStep(id, phase+"_end")
+					if !ok {
+						end = 1 << 30
+					}
+					fails = append(fails, failure{l, id, phase, step, end})
 				}
 			}
 		}
@@ -575,12 +603,12 @@ func runC13(k *kernel.K) {
 			switch {
 			case f.step > done(q):
 				// evaluated after the query was answered: must not appear
-			case f.step >= sent(q):
-				may[kk] = f
-			case lastReset != nil && f.step < sent(lastReset):
+			case f.end >= sent(q):
+				may[kk] = f // evaluation overlaps the query
+			case lastReset != nil && f.end < sent(lastReset):
 				cleared[kk] = f
 			case lastReset != nil && f.step <= done(lastReset):
-				may[kk] = f
+				may[kk] = f // evaluation overlaps the reset
 			default:
 				must[kk] = f
 			}
